@@ -253,6 +253,7 @@ func (g *G) primary() bool {
 			g.Expr()
 		}
 		g.kw("END")
+		return true
 	case 14:
 		g.kw("IF")
 		g.p("(")
@@ -417,11 +418,21 @@ func (g *G) braced() {
 			}
 		}
 		g.id()
-		if g.opt() && g.depth < maxDepth {
-			g.nest(g.braced)
-		} else {
+		switch {
+		case g.depth >= maxDepth:
 			g.p(":")
 			g.Expr()
+		default:
+			switch g.alt(3) {
+			case 0:
+				g.p(":")
+				g.Expr()
+			case 1:
+				g.nest(g.braced) // sub-message without colon
+			case 2:
+				g.p(":") // sub-message with colon
+				g.nest(g.braced)
+			}
 		}
 	}
 	g.p("}")
